@@ -26,7 +26,13 @@ func seqSender(w *World, name string, errs *[]string) gen.PID {
 	return w.spawnProbe(name, probeCfg{onMsg: func(p *probe, from gen.PID, m any) error {
 		if r, ok := m.(seqReq); ok {
 			for _, x := range r.msgs {
-				if err := p.Send(r.to, x); err != nil {
+				var err error
+				if strings.HasPrefix(x, "!") { // sent with the important-delivery flag
+					err = p.SendImportant(r.to, x)
+				} else {
+					err = p.Send(r.to, x)
+				}
+				if err != nil {
 					*errs = append(*errs, x+":"+err.Error())
 				}
 			}
@@ -135,6 +141,33 @@ func init() {
 }
 
 func init() {
+	// ordinary and important sends of one pair share the order: an important message does not overtake
+	for _, slow := range []int{0, 1} {
+		slow := slow
+		harn.Register(harn.Scenario{Property: "C13", Name: fmt.Sprintf("fifo-ordinary-then-important-slowlink%d", slow), Run: func(ctx *harn.Ctx) *harn.Result {
+			return harn.Explore(ctx, harn.Sched{QuickBound: 1, ThoroughBound: 2, Preempt: false, Cache: true, HorizonS: 30, Body: netBody(netOpts{}, func(nw *NetWorld) {
+				var errs []string
+				spid := seqSender(nw.a, "S", &errs)
+				rpid := nw.b.spawnProbe("R", probeCfg{}, gen.ProcessOptions{})
+				nw.connect()
+				nw.addLink()
+				if nw.ex.Failed() {
+					return
+				}
+				msgs := []string{"m1", "m2", "!m3", "m4"}
+				nw.links[slow].cb.Hold = true
+				nw.ex.Thread("GO", func() { nw.a.n.Send(spid, seqReq{rpid, msgs}) })
+				nw.ex.ThreadLow("RELEASE", func() { nw.links[slow].cb.Hold = false })
+				nw.Check = func() {
+					got := handled(nw.b.recs["R"], "M:")
+					if !inOrder(got, msgs) {
+						nw.ex.Fail("network-order-violated", "sender %d sent %v ('!' = important delivery) over two links, link %d slow; handled in the order %v", spid.ID, msgs, slow, got)
+					}
+					nw.Out("got=%s errs=%v", strings.Join(got, ","), errs)
+				}
+			})})
+		}})
+	}
 	// small and large frames of one pair on one link: the flusher buffers small frames and must not let a
 	// frame larger than its buffer pass them
 	for _, pool := range []int{1, 2} {
